@@ -1326,5 +1326,7 @@ func (prop) Extra(rng *rand.Rand, tier string) corr.ExtraResult {
 		})
 		res.Notes["add_uninitialised_tx"] = fmt.Sprint(p)
 	}()
+	// live subscribers of the pool's emitter (subscriber.go): C14-hang-event-subscriber
+	subscriberScenarios(rng, tier, &res)
 	return res
 }
